@@ -6,8 +6,8 @@ from props import fam_sfc as F
 from props import fam_sym
 
 MANIFEST = dict(
-    technique='Coq proof of the symmetry law of the direct sum for every tabulated group (abstract character, permutation of the group by left multiplication checked by the kernel per row) + textbook-sum / symmetry / R-factor oracles on gemmi',
-    text='The FFT-vs-direct oracle includes anomalous addends (IT92) and small cells in which one atom spans more than half a cell edge. Theorems: for every group of the table regenerated from /repo, every rotation part R, every hkl, every rational position and every weight, the sum over all symmetry images satisfies F(hR) = F(h) exp(-2 pi i h.t) (in any commutative ring with a character of period 24d; the re-indexing g -> R*g is a permutation of the operation list, kernel-checked for all 564 rows); the anisotropic image factor identity (hR)^T U (hR) = h^T (R U R^T) h. Oracles on gemmi: calculate_sf_from_model / _from_small_structure equal an independent long-double textbook sum (occupancy x form factor x iso/aniso DWF x phase over all images) for random structures incl. special positions, partial occupancies, ions, three tables; symmetry-equivalent reflections, Friedel mates, systematic absences checked on gemmi outputs; two ions of one element with different charges get their own form factors; FFT route (DensityCalculator + transform_map_to_f_phi) vs direct: R < 1% at default settings and not growing when rate/cutoff are refined.',
+    technique='Coq proof of the symmetry law of the direct sum (isotropic and anisotropic weights) and of its consequences (absent reflections zero, Friedel) for every tabulated group (abstract character, permutation of the group by left multiplication checked by the kernel per row) + textbook-sum / symmetry / R-factor oracles on gemmi',
+    text='The FFT-vs-direct oracle includes anomalous addends (IT92) and small cells in which one atom spans more than half a cell edge. CONSEQUENCES PROVED (Sfc/SfConseq.v, Sfc/SfAniso.v): (1) the symmetry law also holds when the weight of an image depends on the image through the index rotated into its frame, i.e. with ANISOTROPIC Debye-Waller factors exactly as calculate_sf_from_atom_sf evaluates them (any weight function of rot(g)^T h); (2) SYSTEMATICALLY ABSENT REFLECTIONS ARE ZERO: for every tabulated group and every reflection that is_systematically_absent flags (screw/glide and centring, the latter by a kernel-checked permutation of the operation list under each centring vector) the direct sum is 0, in any field with a faithful character; (3) FRIEDEL: with real weights F(-h) = conj F(h). Theorems: for every group of the table regenerated from /repo, every rotation part R, every hkl, every rational position and every weight, the sum over all symmetry images satisfies F(hR) = F(h) exp(-2 pi i h.t) (in any commutative ring with a character of period 24d; the re-indexing g -> R*g is a permutation of the operation list, kernel-checked for all 564 rows); the anisotropic image factor identity (hR)^T U (hR) = h^T (R U R^T) h. Oracles on gemmi: calculate_sf_from_model / _from_small_structure equal an independent long-double textbook sum (occupancy x form factor x iso/aniso DWF x phase over all images) for random structures incl. special positions, partial occupancies, ions, three tables; symmetry-equivalent reflections, Friedel mates, systematic absences checked on gemmi outputs; two ions of one element with different charges get their own form factors; FFT route (DensityCalculator + transform_map_to_f_phi) vs direct: R < 1% at default settings and not growing when rate/cutoff are refined.',
     note='Trusted: Coq kernel + vm_compute; translator; harness (long double reference sum using gemmi form-factor tables, which are property C16). No axioms. The numerical agreement of the C++ sum with the textbook sum and the FFT accuracy are oracle-only (libm, float).')
 
 
